@@ -9,16 +9,21 @@ from harness.core import enc_str, dec_str
 PROPERTY = "C11"
 READY = True
 THEOREMS = ["C11.consts_ok", "C11.no_loss", "C11.read_render", "C11.norm_perm", "C11.keys_sorted", "C11.lines",
-            "C11.read_lines", "C11.text_determines_value"]
-RULE = ("one value per case, printed in both modes (text + line iteration) and once through the chunk generator at "
-        "an offset; values: random nestings (depth <= 5), containers of 0,1,2,3,30,60,120 simple items, lists and "
-        "dicts whose one-line length is the threshold -2..+2 at offsets 0..40, wrapped lists with a line that reaches "
-        "the wrap limit -1..+2, items longer than the wrap limit, keys in code-point order traps. non-trivial = the "
-        "value contains a non-empty container; distinct by protocol text")
+            "C11.lines_own_chunks", "C11.read_lines", "C11.text_determines_value"]
+RULE = ("one value per case, printed in both modes and consumed in every way a caller can (whole text, str(), lines "
+        "streamed / collected first / rendered in reverse / by index / iterated twice, text after iteration) and "
+        "through the chunk generator at an offset (diagnostic); values: all pairs of 9 atoms in lists/dicts, random nestings (depth <= 5), containers of "
+        "0,1,2,3,30,60,120 simple items at offsets 0..40, lists and dicts whose one-line length is the threshold "
+        "-2..+2 at every even offset 0..40, wrapped lists with lines that reach the wrap limit -1..+2 and items "
+        "longer than the limit, mixtures, keys that trap code-point order (case, digits, non-ASCII, astral). "
+        "Malformed stream (diagnostic, for the specification's reader only): the printed JSON text with 1-2 random "
+        "character edits, read by the Lean reader and by json.loads. non-trivial = the value contains a non-empty "
+        "container; distinct by protocol text")
 TRUSTED = ["str() of int/float (the number text is handed to the model as data)",
            "json.loads / ast.literal_eval / ast.parse (the oracle's readers)"]
-ASSUMPTIONS = ["json.loads / ast.literal_eval read the text str() prints for a finite int/float back as that number "
-               "(C11.read_render treats a number token as opaque text; exercised by every case with numbers)",
+ASSUMPTIONS = ["str() of a finite int/float follows the JSON number grammar and json.loads / ast.literal_eval read "
+               "that text back as the same number (C11.read_render keeps a number as its text; asserted by the "
+               "generator for every number and exercised by every case with numbers)",
                "Python's == on dicts ignores the order of entries (C11.norm_perm states the permutation)"]
 
 
@@ -199,7 +204,12 @@ def _numbers_ok(v):
 def mk_case(v, kind, off=0, rng=None):
     assert _numbers_ok(v), "generator produced a non-finite number"
     e = enc_val(v)
-    lines = ["pp j " + e, "ln j " + e, "pp p " + e, "ln p " + e, "gen j %d %s" % (off, e), "gen p %d %s" % (off, e)]
+    # every way a caller can consume the result: whole text, str(), streaming lines, lines collected first and
+    # rendered afterwards (in order / reversed / by index), a second iteration, the whole text after an iteration
+    lines = ["pp j " + e, "ln j " + e, "lc j " + e, "lr j " + e, "l2 j " + e, "li j " + e, "lp j " + e, "lz j " + e,
+             "pa j " + e, "ps j " + e,
+             "pp p " + e, "ln p " + e, "lc p " + e,
+             "gen j %d %s" % (off, e), "gen p %d %s" % (off, e)]
     # the specification-side reader against the real parsers, on the text the real printer gives
     for mode in ("j", "p"):
         try:
@@ -261,8 +271,21 @@ def impl(case):
             pp = _printer(mode)
             if op == "pp":
                 out.append("ok " + enc_str(pp(dec_val(rest), no_color=True).plain_text()))
-            elif op == "ln":
-                out.append("ok " + "|".join(enc_str(l.plain_text()) for l in pp(dec_val(rest), no_color=True)))
+            elif op == "ps":                # str() of a no-colour result
+                out.append("ok " + enc_str(str(pp(dec_val(rest), no_color=True))))
+            elif op == "pa":                # the whole text asked for after the lines were iterated
+                res = pp(dec_val(rest), no_color=True)
+                kept = list(res)
+                out.append("ok " + enc_str(res.plain_text()))
+                del kept
+            elif op == "lz":                # two results of one printer iterated in lock step (side by side)
+                v = dec_val(rest)
+                pairs = list(zip(pp(v, no_color=True), pp(v, no_color=True)))
+                a = [x.plain_text() for x, _ in pairs]
+                b = [y.plain_text() for _, y in pairs]
+                out.append("ok " + "|".join(enc_str(t) for t in (a if a == b else a + ["<the two results differ>"] + b)))
+            elif op in LINE_OPS:
+                out.append("ok " + "|".join(enc_str(t) for t in _consume_lines(op, pp(dec_val(rest), no_color=True))))
             elif op == "gen":
                 cp = pp._mk_palette(None, True, None)
                 chunks = pp._gen_ch_chunks_for_obj(cp, dec_val(rest[1:]), offset=int(rest[0]))
@@ -274,6 +297,40 @@ def impl(case):
         except Exception as e:
             out.append("err " + type(e).__name__)
     return out
+
+
+LINE_OPS = ("ln", "lc", "lr", "l2", "li", "lp", "lz")
+
+
+def _consume_lines(op, res):
+    """the texts of the lines of a result, in line order, obtained in one of the ways a caller can use"""
+    if op == "ln":                          # streaming: render each line when it arrives
+        return [l.plain_text() for l in res]
+    if op == "lc":                          # collect all lines, render afterwards
+        lines = list(res)
+        return [l.plain_text() for l in lines]
+    if op == "lr":                          # collect, render last line first
+        lines = list(res)
+        texts = [l.plain_text() for l in reversed(lines)]
+        return texts[::-1]
+    if op == "l2":                          # iterate the same result twice; render the first pass afterwards
+        first = list(res)
+        second = list(res)
+        a = [str(l) for l in first]
+        b = [l.plain_text() for l in second]
+        return a if a == b else a + ["<second iteration differs>"] + b
+    if op == "li":                          # collect, then index: odd lines first, then even ones
+        lines = list(res)
+        texts = {}
+        for i in list(range(1, len(lines), 2)) + list(range(0, len(lines), 2)):
+            texts[i] = lines[i].plain_text()
+        return [texts[i] for i in range(len(lines))]
+    if op == "lp":                          # the whole text first, then the lines of the same result
+        whole = res.plain_text()
+        lines = list(res)
+        texts = [l.plain_text() for l in lines]
+        return texts if "\n".join(texts) == whole else texts + ["<differs from the text built before>"]
+    raise ValueError(op)
 
 
 class _Num(str):
@@ -418,22 +475,35 @@ def check_text(text, value, mode):
     return _same(got, value)
 
 
+_WHICH = {"pp": "", "ps": "-str", "pa": "-text-after-iteration", "ln": "-lines", "lc": "-collected-lines",
+          "lr": "-collected-lines-reversed", "l2": "-second-iteration", "li": "-indexed-lines",
+          "lp": "-lines-after-text", "lz": "-two-results-in-lock-step"}
+
+
 def oracle(case, replies):
+    wholes = {}
     for line, rep in zip(case["lines"], replies):
         op, mode, *rest = line.split()
-        if op not in ("pp", "ln"):
+        if op not in _WHICH:
             continue
         value = dec_val(rest)
-        which = ("json" if mode == "j" else "python") + ("-lines" if op == "ln" else "")
+        which = ("json" if mode == "j" else "python") + _WHICH[op]
         if not rep.startswith("ok "):
             return "%s-fails: printing raised %s" % (which, rep)
-        if op == "pp":
-            text = dec_str(rep[3:])
-        else:
+        if op in LINE_OPS:
             text = "\n".join(dec_str(t) for t in rep[3:].split("|"))
+        else:
+            text = dec_str(rep[3:])
         msg = check_text(text, value, mode)
         if msg:
             return "%s: %s" % (which, msg)
+        if op != "pp":
+            # every view of the result is the same text as the whole-text rendering
+            key = (mode, " ".join(rest))
+            if key not in wholes:
+                wholes[key] = _printer(mode)(value, no_color=True).plain_text()
+            if text != wholes[key]:
+                return "%s-differs: this view of the result is not the text plain_text() gives" % which
     return None
 
 
@@ -638,14 +708,21 @@ def gen_cases(rng, tier):
     for ks in (["b", "a", "B", "A", "", " ", "10", "9", "é", "z", "中", "~"], _KEYS):
         yield mk({k: i for i, k in enumerate(ks)}, "keys")
         yield mk({k: [i, [i]] for i, k in enumerate(reversed(ks))}, "keys")
+    if not quick:                           # exhaustive small scope: every triple of atoms
+        for a in atoms:
+            for b in atoms:
+                for c3 in atoms:
+                    yield mk([a, b, c3], "small-exhaustive")
+                    yield mk({"c": a, "a": b, "b": c3}, "small-exhaustive")
+                    yield mk([[a], [b, c3], {"k": [a, c3]}], "small-exhaustive")
     # 1. random nestings
-    for i in range(1500 if quick else 60000):
+    for i in range(2400 if quick else 50000):
         v = _value(rng, 0, big=(i % 3 == 0))
         off = rng.choice([0, 0, 1, 2, 3, 7, 40])
         yield mk(v, "random-big" if i % 3 == 0 else "random", off)
     # 2. containers of n simple items
     for n in (0, 1, 2, 3, 30, 60, 120):
-        for _ in range(12 if quick else 300):
+        for _ in range(20 if quick else 300):
             depth = rng.choice([0, 0, 1, 2, 5, 10, 20])
             mx = rng.choice([0, 3, 12, 30])
             v = [_simple(rng, mx) for _ in range(n)]
@@ -658,18 +735,18 @@ def gen_cases(rng, tier):
     for depth in range(0, 21):
         off = 2 * depth
         for delta in (-2, -1, 0, 1, 2):
-            for _ in range(2 if quick else 40):
+            for _ in range(3 if quick else 40):
                 v = _list_one_line(rng, max(4, lim_l - off + delta))
                 yield mk(_wrap(rng, v, depth), "list-threshold%+d" % delta, off)
                 d = _dict_one_line(rng, max(4, lim_d - off + delta))
                 yield mk(_wrap(rng, d, depth), "dict-threshold%+d" % delta, off)
     # 4. wrapped lists around the wrap limit
-    for _ in range(300 if quick else 10000):
+    for _ in range(450 if quick else 8000):
         depth = rng.choice([0, 0, 1, 2, 3, 5, 10, 20])
         v = _wrapped_list(rng, 2 * depth, lim_w)
         yield mk(_wrap(rng, v, depth), "wrap-limit", 2 * depth)
     # 5. mixtures: dict of wrapped lists / long dicts inside lists
-    for _ in range(150 if quick else 5000):
+    for _ in range(200 if quick else 4000):
         depth = rng.choice([0, 1, 2, 4])
         parts = {}
         for _ in range(rng.randint(1, 4)):
@@ -794,6 +871,22 @@ def tags(case, replies):
         yield "layout:wrapped-list"
 
 
-LEVEL_TEXT = ""
-LEVEL_NOTE = ""
-TECHNIQUE = "Lean 4 theorems + translator for keyword tables/thresholds + correspondence check"
+LEVEL_TEXT = ("For every JSON-like value (any nesting, size and offset; strings without quote, backslash, control "
+              "characters; numbers as the text str() prints), every choice of the layout thresholds and both keyword "
+              "tables, proved in Lean on a model of PrettyPrinter's chunk generator: the printed text lexes to exactly the "
+              "tokens of the value with dict entries sorted by key (no element lost, duplicated or reordered in the "
+              "one-line, wrapped and one-item-per-line layouts), a JSON-grammar reader returns that value, the sorted "
+              "value is the same value up to dict order, keys are strictly increasing by code point, and the line "
+              "iteration joined by line feeds is the text. Keyword tables, thresholds and indentation are re-read from "
+              "ak/ppobj.py on every run; model = code (exact text, lines, chunk lists at offsets 0..40) and "
+              "reader = json.loads / ast.literal_eval are established by differential runs.")
+LEVEL_NOTE = ("Kernel-checked theorems: C11.no_loss, read_render, read_lines, norm_perm, keys_sorted, lines, lines_own_chunks, "
+              "text_determines_value, consts_ok (axioms propext, Classical.choice, Quot.sound). Resting on the sampled "
+              "correspondence only: that the Lean model computes the text of the real printer (compared character by "
+              "character on ~5k values per quick run around both thresholds), and that the Lean reader is what json.loads / "
+              "ast.literal_eval do (compared on every printed text and on randomly damaged JSON texts; diagnostic). "
+              "Trusted, not verified: str() of int/float and that the real parsers read such a token back as the same "
+              "number (number tokens are text in the model; NaN/Infinity are outside the domain), CPython's recursion "
+              "limit (nesting beyond ~400 levels raises RecursionError), the translator and adapter in harness/c11.py.")
+TECHNIQUE = ("Lean 4 theorems (lexer/parser round trip through a layout-independent token sequence, induction over values) "
+             "+ translator for keyword tables/thresholds/indentation + correspondence check")
